@@ -296,7 +296,7 @@ def oracle_c11(b, report):
             if stored[:24] != want[:24] or stored[64:] != want[64:]:
                 report('eltorito-boot-info-table', 'boot info table of %s as stored: pvd/file sector/length/checksum %s, expected %s'
                        % (bf, struct.unpack('<LLLL', stored[8:24]), struct.unpack('<LLLL', want[8:24])), None)
-            if b.iso2 is not None:
+            if b.iso2 is not None and bf in s.ns['iso']:
                 try:
                     o = io.BytesIO()
                     b.iso2.get_file_from_iso_fp(o, iso_path=bf)
